@@ -207,7 +207,7 @@ def generate(tier, seed):
     rnd = random.Random(seed * 7919 + 11)
     for s in fixed_scenarios():
         yield from cross(s)
-    nrand = 36 if tier == "quick" else 330
+    nrand = 16 if tier == "quick" else 220
     for _ in range(nrand):
         yield from cross(rand_scenario(rnd))
 
